@@ -169,9 +169,13 @@ func (c *FileCache[MetadataT]) Get(key CacheKey) (*Entry[MetadataT], error) {
 
 	metrics.Global.Cache.CacheHits.Increment()
 	slog.Debug("Successful cache hit", "key", key.Hex)
+	// Hand out a snapshot: the caller reads it without holding the entry's lock,
+	// while UpdateMetadata and later Gets keep writing the stored metadata.
+	metaSnapshot := *entryMeta
+
 	return &Entry[MetadataT]{
 		Data:     dataFile,
-		Metadata: entryMeta,
+		Metadata: &metaSnapshot,
 		Stale:    stale,
 	}, nil
 }
